@@ -201,16 +201,19 @@ Proof. exact AgreeMiscSum.unresolved_spec. Qed.
 Print Assumptions unresolved_spec.
 
 (** "stats counts equal the numbers of headings with first/last dates ...": on the callback folds, for
-    a file that is readable to the end and has no parse error.  The first record is the FIRST heading
-    that is a date, whatever date it is (no exception for 0001-01-01: the walk keeps an [option time],
-    [None] = no dated heading yet); the zero time is shown only when no heading is a date.  The last
-    record is the time of the LAST heading, the zero time when that heading is not a date. *)
+    a file that is readable to the end and has no parse error.  Since fix F27 the log walk runs to the end
+    only when every heading is a date ([all_dated]; a heading that is not a date ends the run with the date
+    error and nothing is printed: [stats_bad_date], [stats_bad_date_last] below -- before the fix it was
+    counted and, as last heading, shown as the zero time).  The first record is the FIRST heading, whatever
+    date it is (no exception for 0001-01-01: the walk keeps an [option time], [None] = no heading yet); the
+    last record is the LAST heading; the zero time is shown only when the log has no heading. *)
 Theorem stats_spec : forall (NM : Num) toks data,
   snd (scan data NoFault) = ScanEOF -> no_parse_error NM (events NM data) ->
   let ns := nodes_of NM (events NM data) in
   let ds := heading_dates NM toks ns in
-  parse_opened NM (stats_log_cb NM toks) (OData data NoFault) (O, None, zero_time)
-    = ((length (events NM data), stats_first_opt ds, stats_last ds), None)
+  (all_dated NM toks ns ->
+   parse_opened NM (stats_log_cb NM toks) (OData data NoFault) (O, None, zero_time)
+     = ((length (events NM data), stats_first_opt ds, stats_last ds), None))
   /\ parse_opened NM (stats_db_cb NM) (OData data NoFault) O = (length (events NM data), None)
   /\ map ENode ns = events NM data
   /\ (forall pre c post, ds = pre ++ Some c :: post -> (forall o, In o pre -> o = None) ->
@@ -220,7 +223,8 @@ Theorem stats_spec : forall (NM : Num) toks data,
                       | Some (Some c) => time_of_civil c
                       | _ => zero_time
                       end
-  /\ stats_last ds = match last ds None with Some c => time_of_civil c | None => zero_time end.
+  /\ stats_last ds = match last ds None with Some c => time_of_civil c | None => zero_time end
+  /\ (all_dated NM toks ns -> Forall (fun o => o <> None) ds).
 Proof. exact AgreeMiscStats.stats_spec. Qed.
 Print Assumptions stats_spec.
 
@@ -234,7 +238,7 @@ Theorem stats_first_record_zero_date :
   /\ stats_first (heading_dates ZNum ex_toks (nodes_of ZNum (events ZNum z_log))) = time_of_civil (1, 1, 1)%Z
   /\ run ZNum z_world z_inv
      = {| out_stdout :=
-            b "  Database file:      " ++ ex_nl ++
+            b "  Database file:      /dev/null" ++ ex_nl ++
             b "  Database records:   0" ++ ex_nl ++
             ex_nl ++
             b "  Log file:           log.yaml" ++ ex_nl ++
@@ -246,13 +250,48 @@ Theorem stats_first_record_zero_date :
 Proof. exact AgreeMiscStats.stats_first_record_zero_date. Qed.
 Print Assumptions stats_first_record_zero_date.
 
-(** "... computed from --today": [now] is the parsed [--today] when given *)
+(** fix F27: a heading that is not a date (no parse error and only dated headings before it): [stats] prints
+    nothing and fails with the date error -- the heading among the records completed inside the file ... *)
+Theorem stats_bad_date : forall (NM : Num) (w : world) (op : options) ldata pre n post last,
+  open_file w (op_log op) = Some (OData ldata NoFault) ->
+  parse_lines NM (fst (scan ldata NoFault)) = (pre ++ ENode n :: post, last) ->
+  no_parse_error NM pre -> all_dated NM (rc_date (op_rc op)) (nodes_of NM pre) ->
+  parse_date (rc_date (op_rc op)) (header n) = None ->
+  run_stats NM w op = finish (new_writer w) (Failed EBadDate).
+Proof. exact run_stats_bad_date. Qed.
+Print Assumptions stats_bad_date.
+
+(** ... or the last record of a file that is readable to the end
+    ([finish (new_writer w) st] = [{| out_stdout := []; out_status := st |}] by computation) *)
+Theorem stats_bad_date_last : forall (NM : Num) (w : world) (op : options) ldata evs n,
+  open_file w (op_log op) = Some (OData ldata NoFault) ->
+  snd (scan ldata NoFault) = ScanEOF ->
+  parse_lines NM (fst (scan ldata NoFault)) = (evs, Some n) ->
+  no_parse_error NM evs -> all_dated NM (rc_date (op_rc op)) (nodes_of NM evs) ->
+  parse_date (rc_date (op_rc op)) (header n) = None ->
+  run_stats NM w op = finish (new_writer w) (Failed EBadDate).
+Proof. exact run_stats_bad_date_last. Qed.
+Print Assumptions stats_bad_date_last.
+
+(** a log with three dated headings and then the heading "notadate": nothing printed, the date error
+    (before the fix: "Log records: 4", "Last record: 0001/01/01", status Ok) *)
+Theorem stats_bad_date_fails :
+  run ZNum bad_world z_inv = {| out_stdout := []; out_status := Failed EBadDate |}
+  /\ exists evs n, parse_lines ZNum (fst (scan ex_log NoFault)) = (evs, Some n)
+                   /\ all_dated_b ZNum ex_toks (nodes_of ZNum evs) = true /\ parse_date ex_toks (header n) = None.
+Proof. exact AgreeMiscStats.stats_bad_date_fails. Qed.
+Print Assumptions stats_bad_date_fails.
+
+(** "... computed from --today": [now] is the parsed [--today] when given; else (fix F25) the calendar day of
+    the configured Now / of the clock, at midnight UTC like a parsed date: the day distances below are
+    exact differences of day numbers in all three cases ([stats_days_ago]) *)
 Theorem stats_today : forall (w : world) (i : invocation) (op : options),
   load w i = inr op ->
   tokenize (op_fmt op) = Some (rc_date (op_rc op))
   /\ match i_f_today i with
      | Some s => exists c, parse_date (rc_date (op_rc op)) s = Some c /\ op_now op = time_of_civil c
-     | None => exists cfg, load_config w i = inr cfg /\ op_now op = or_default (ce_now cfg) (w_clock w)
+     | None => exists cfg, load_config w i = inr cfg
+                           /\ op_now op = time_of_civil (civ (or_default (ce_now cfg) (w_clock w)))
      end.
 Proof. exact load_now. Qed.
 Print Assumptions stats_today.
@@ -296,7 +335,7 @@ Print Assumptions stats_days_far.
 Theorem stats_lines_printed : forall (NM : Num) (w : world) (op : options) ldata ddata,
   open_file w (op_log op) = Some (OData ldata NoFault) ->
   snd (scan ldata NoFault) = ScanEOF -> no_parse_error NM (events NM ldata) ->
-  op_db op <> [] ->
+  all_dated NM (rc_date (op_rc op)) (nodes_of NM (events NM ldata)) ->
   open_file w (op_db op) = Some (OData ddata NoFault) ->
   snd (scan ddata NoFault) = ScanEOF -> no_parse_error NM (events NM ddata) ->
   let ds := heading_dates NM (rc_date (op_rc op)) (nodes_of NM (events NM ldata)) in
@@ -314,7 +353,7 @@ Print Assumptions stats_lines_printed.
     Hypotheses common to all of them: stdout never fails ([w_sink w = None]), the files open as regular
     files without read faults, are scanned to their end (no line of 64 KiB or more), have no parse
     error, and every heading of the log parses as a date under the configured layout (otherwise the
-    walking commands stop with an error; [stats] does not). *)
+    commands stop with the date error; since fix F27 [stats] too). *)
 
 (** the walk of any reporter whose Process never returns an error: final state and bytes on stdout *)
 Theorem run_log_ok : forall (NM : Num) (w : world) (op : options) (R : reporter NM) toks ldata,
@@ -463,7 +502,7 @@ Theorem stats_program : forall (NM : Num) (w : world) (op : options) ldata ddata
   w_sink w = None ->
   open_file w (op_log op) = Some (OData ldata NoFault) ->
   snd (scan ldata NoFault) = ScanEOF -> no_parse_error NM (events NM ldata) ->
-  op_db op <> [] ->
+  all_dated NM (rc_date (op_rc op)) (nodes_of NM (events NM ldata)) ->
   open_file w (op_db op) = Some (OData ddata NoFault) ->
   snd (scan ddata NoFault) = ScanEOF -> no_parse_error NM (events NM ddata) ->
   let ds := heading_dates NM (rc_date (op_rc op)) (nodes_of NM (events NM ldata)) in
